@@ -2,6 +2,8 @@ package main
 
 import (
 	"fmt"
+	"github.com/ohler55/ojg/gen"
+	"regexp"
 	"strings"
 
 	"github.com/ohler55/ojg/jp"
@@ -322,6 +324,120 @@ func suiteScript(tier string, seed uint64, model string) *Report {
 			}
 		}
 	}
-	rep.Rule = "directed: Go structs / arrays holding slices or maps in ==, !=, in, <; matrix: 16 binary operators x 16x16 operand kinds (nil, bools, ints, floats incl. integral ones, strings, arrays, objects) supplied through @.l/@.r, plus constant right operands, missing left/right paths and Nothing; random: seeded nested equations (depth <= 3, sub-paths yielding zero, one or many values, length/count, in-lists) on seeded trees; Script.Match vs the extracted script_match, and Match vs filter membership; non-trivial = distinct cases the specification says match"
+	// directed: the regex operator with a compound left operand (string concatenation on either
+	// side of a path), constant pattern as a string and as a compiled expression, negated, through
+	// the API, the text form and a filter; oracle: Go's regexp on the concatenation
+	{
+		type lf struct {
+			name string
+			mk   func() *jp.Equation
+			val  func(s, t string) string
+		}
+		gs := func(k string) *jp.Equation { return jp.Get(jp.A().C(k)) }
+		forms := []lf{
+			{"@.s", func() *jp.Equation { return gs("s") }, func(s, t string) string { return s }},
+			{"'id-' + @.s", func() *jp.Equation { return jp.Add(jp.ConstString("id-"), gs("s")) }, func(s, t string) string { return "id-" + s }},
+			{"@.s + '-x'", func() *jp.Equation { return jp.Add(gs("s"), jp.ConstString("-x")) }, func(s, t string) string { return s + "-x" }},
+			{"('id-' + @.s) + '-x'", func() *jp.Equation { return jp.Add(jp.Add(jp.ConstString("id-"), gs("s")), jp.ConstString("-x")) }, func(s, t string) string { return "id-" + s + "-x" }},
+			{"@.s + @.t", func() *jp.Equation { return jp.Add(gs("s"), gs("t")) }, func(s, t string) string { return s + t }},
+			{"'a' + ('b' + @.t)", func() *jp.Equation { return jp.Add(jp.ConstString("a"), jp.Add(jp.ConstString("b"), gs("t"))) }, func(s, t string) string { return "ab" + t }},
+		}
+		pats := []string{"^id-[0-9]+$", "^[0-9]+$", "x$", "^id-", "1.3", "^ab", "^$", "[a-c]+-x$"}
+		svals := []string{"123", "abc", "", "1x3", "b"}
+		for _, f := range forms {
+			for _, pat := range pats {
+				rx := regexp.MustCompile(pat)
+				for _, sv := range svals {
+					for _, tv := range []string{"7", "c-x"} {
+						d := map[string]any{"s": sv, "t": tv}
+						want := rx.MatchString(f.val(sv, tv))
+						for _, neg := range []bool{false, true} {
+							for _, compiled := range []bool{false, true} {
+								right := jp.ConstString(pat)
+								if compiled {
+									right = jp.ConstRegex(rx)
+								}
+								eq := jp.Regex(f.mk(), right)
+								exp := want
+								if neg {
+									eq = jp.Not(eq)
+									exp = !want
+								}
+								desc := fmt.Sprintf("%s ~= %q neg=%v compiled=%v on s=%q t=%q", f.name, pat, neg, compiled, sv, tv)
+								for _, how := range []string{"api", "text", "filter"} {
+									rep.Evaluations++
+									got := safe(func() string {
+										switch how {
+										case "api":
+											return fmt.Sprint(eq.Script().Match(d))
+										case "text":
+											sc, err := jp.NewScript(eq.Script().String())
+											if err != nil {
+												return "E " + err.Error()
+											}
+											return fmt.Sprint(sc.Match(d))
+										default:
+											return fmt.Sprint(len(jp.R().F(eq).Get([]any{d})) == 1)
+										}
+									})
+									if got != fmt.Sprint(exp) {
+										rep.Add(Disagreement{Case: desc, Where: "regex with compound left operand/" + how, Kind: "impl-vs-spec:regex-operand", Impl: got, Spec: fmt.Sprint(exp)})
+									}
+								}
+							}
+						}
+					}
+				}
+			}
+		}
+		// a non-string left operand never matches
+		for _, v := range []any{int64(5), nil, true, []any{"123"}} {
+			rep.Evaluations++
+			d := map[string]any{"s": v}
+			if got := safe(func() string {
+				return fmt.Sprint(jp.Regex(jp.Add(jp.ConstString("id-"), gs("s")), jp.ConstString("^id-")).Script().Match(d))
+			}); got != "false" {
+				rep.Add(Disagreement{Case: Show(d), Where: "regex with compound left operand/non-string", Kind: "impl-vs-spec:regex-operand", Impl: got, Spec: "false"})
+			}
+		}
+	}
+	// directed: a script sees the same member values whatever Go representation holds them
+	// (nested map[string]any, gen nodes, structs by value and by pointer, typed maps): nested child
+	// operands compared, tested for existence and against Nothing
+	{
+		type inB struct{ B int64 }
+		type inA struct {
+			A inB
+			P *inB
+		}
+		for _, v := range []int64{1, 2} {
+			reps := []struct {
+				name string
+				d    any
+			}{
+				{"map[string]any", map[string]any{"a": map[string]any{"b": v}, "p": map[string]any{"b": v}}},
+				{"gen", gen.Object{"a": gen.Object{"b": gen.Int(v)}, "p": gen.Object{"b": gen.Int(v)}}},
+				{"struct", inA{A: inB{B: v}, P: &inB{B: v}}},
+				{"*struct", &inA{A: inB{B: v}, P: &inB{B: v}}},
+				{"map[string]map[string]int64", map[string]map[string]int64{"a": {"b": v}, "p": {"b": v}}},
+				{"map[string]any of struct", map[string]any{"a": inB{B: v}, "p": &inB{B: v}}},
+			}
+			for _, sc := range []string{"(@.a.b == 1)", "(@.a.b != 1)", "(@.a.b < 2)", "(@.p.b == 1)", "(@.a.b exists true)", "(@.a.zz exists true)", "(@.a.b == Nothing)", "(@.a.zz == Nothing)", "(@.p.b >= 2)", "((@.a.b + @.p.b) == 2)"} {
+				ref := ""
+				for i, rp := range reps {
+					rep.Evaluations++
+					got := safe(func() string { return fmt.Sprint(jp.MustNewScript(sc).Match(rp.d)) })
+					if i == 0 {
+						ref = got
+						continue
+					}
+					if got != ref {
+						rep.Add(Disagreement{Case: fmt.Sprintf("%s with b=%d", sc, v), Where: "Script.Match on " + rp.name, Kind: "impl-law:script-representation", Impl: got, Spec: ref + " (on map[string]any)"})
+					}
+				}
+			}
+		}
+	}
+	rep.Rule = "directed: regex with compound left operands (6 forms x 8 patterns x strings, negated, pattern as string / compiled, API / text / filter; oracle Go regexp); nested child operands on 6 Go representations of the same data; directed: Go structs / arrays holding slices or maps in ==, !=, in, <; matrix: 16 binary operators x 16x16 operand kinds (nil, bools, ints, floats incl. integral ones, strings, arrays, objects) supplied through @.l/@.r, plus constant right operands, missing left/right paths and Nothing; random: seeded nested equations (depth <= 3, sub-paths yielding zero, one or many values, length/count, in-lists) on seeded trees; Script.Match vs the extracted script_match, and Match vs filter membership; non-trivial = distinct cases the specification says match"
 	return rep
 }
